@@ -324,6 +324,18 @@ async fn run_task_async(case: &Value) -> Value {
                 let reader = spawn_dl_reader(rx1, d, log.clone(), task_id);
                 dls.insert(d, Dl { writer: Some(FramedWrite::new(tx2, RawRequestMessageEncoder)), done: Some(done_rx), reader: Some(reader), attached: false });
             }
+            "attach_oneway" => {
+                let d = a["d"].as_u64().unwrap();
+                let (tx2, rx2) = byte_channel(buf);
+                let (done_tx, done_rx) = oneshot::channel();
+                log.lock().push(a.clone());
+                let req = AttachClient::OneWay { agent_id: Uuid::from_u128(100 + d as u128), path: None, receiver: rx2, done: done_tx };
+                let ok = tokio::time::timeout(Duration::from_secs(60), attach_tx.send(req)).await;
+                if !matches!(ok, Ok(Ok(()))) {
+                    log.lock().push(json!({"k": "attach_failed", "d": d, "at": "send"}));
+                }
+                dls.insert(d, Dl { writer: Some(FramedWrite::new(tx2, RawRequestMessageEncoder)), done: Some(done_rx), reader: None, attached: false });
+            }
             "attach_done" => {
                 let d = a["d"].as_u64().unwrap();
                 let done = dls.get_mut(&d).and_then(|x| x.done.take());
